@@ -23,6 +23,7 @@ RULE = ("operation sequences {defuzzify(batch of injected defuzzified values thr
         "plus a random stream with +-inf values, failures and clear(). non-trivial: at least one NaN row is filled "
         "(lock-previous or default) or one row is clipped; distinct = distinct (setting, operation sequence)")
 RULE += (" Families `faults` / `random-faults`: the failure is raised with EVERY exception class (all built-in subclasses of Exception that take a message, two user-defined ones) through the stub, and by the library's own defuzzifiers (WeightedAverage, WeightedSum, the five integral ones) on a set activated with degree 0 .. 1 under np.errstate(all='raise') (0/0 is a FloatingPointError there); from four states, for all 16 settings, and at random positions of random histories; the class that reaches the caller is compared as well.")
+RULE += (" Family `kept tables`: the defuzzified values come from a defuzzifier that hands out float64 arrays (1-D / 0-d) it KEEPS - the same object on every call, one defuzzifier object also shared by two output variables with different settings; the same table twice, with clear() / other tables / plain calls between, both variables in turn, the owner re-recording a table in place; 16 settings x 8 tables x 6 histories and random histories; observed: value / previous value of both variables (model: each variable's own view of the history) and the tables, which must hold what their owner recorded.")
 ASSUMPTIONS = ["values are compared exactly (no arithmetic happens in the cascade)",
                "a scalar value is a batch of one row (shape is canonicalised with numpy.atleast_1d)"]
 LEVEL_TEXT = ("Lean theorems about Op.commit, a statement-by-statement model of OutputVariable.defuzzify, for batches and "
@@ -79,8 +80,11 @@ class Inject:
 
 
 class Stub(fl.Defuzzifier):
-    def __init__(self):
+    def __init__(self, tables=None):
         self.queue = []
+        # recorded / looked-up results that the defuzzifier KEEPS: ("replay", k) hands out the same float64 array object on
+        # every call (a list is a 1-D array, a bare number a 0-d array)
+        self.tables = [np.array([float(x) for x in t] if isinstance(t, list) else float(t), dtype=float) for t in (tables or [])]
 
     def defuzzify(self, term, minimum, maximum):
         v = self.queue.pop(0)
@@ -135,20 +139,48 @@ def bounds(setting):
     return (float(setting[3]), float(setting[4])) if len(setting) > 3 else (0.0, 1.0)
 
 
-def run_impl(setting, ops):
-    """returns list of observations (value list, previous, raised-class-or-None) after each op"""
+def op_var(op):
+    """the output variable an operation acts on: 0 unless the operation names another one (last component)"""
+    n = {"replay": 3, "clear": 2, "enable": 3}.get(op[0])
+    return int(op[n - 1]) if n and len(op) >= n else 0
+
+
+def run_impl(setting, ops, tables=None, setting2=None):
+    """returns list of observations (value list, previous, raised-class-or-None, fuzzy unchanged[, kept]) after each op;
+    `kept` (histories with tables): what the second variable holds and what the tables of the defuzzifier hold"""
     lp, lr, dv = setting[:3]
     lo, hi = bounds(setting)
-    st = Stub()
+    st = Stub(tables)
     ov = fl.OutputVariable("o", minimum=lo, maximum=hi, lock_range=lr, lock_previous=lp, default_value=dv,
                            defuzzifier=st, aggregation=fl.Maximum(), terms=[fl.Triangle("t", 0, 0.5, 1)])
     ov.fuzzy.terms.append(fl.Activated(ov.terms[0], 0.5, fl.Minimum()))
+    ovs = [ov]
+    if setting2 is not None:
+        # a second output variable of the engine with settings of its own and the SAME defuzzifier object
+        lo2, hi2 = bounds(setting2)
+        ov2 = fl.OutputVariable("p", minimum=lo2, maximum=hi2, lock_range=setting2[1], lock_previous=setting2[0],
+                                default_value=setting2[2], defuzzifier=st, aggregation=fl.Maximum(),
+                                terms=[fl.Triangle("t", 0, 0.5, 1)])
+        ov2.fuzzy.terms.append(fl.Activated(ov2.terms[0], 0.5, fl.Minimum()))
+        ovs.append(ov2)
     obs = []
     for op in ops:
         raised = None
         fuzzy_before = list(ov.fuzzy.terms)
         try:
-            if op[0] == "defuzz":
+            if op[0] == "replay":
+                st.queue = [st.tables[int(op[1])]]
+                ovs[op_var(op)].defuzzify()
+            elif op[0] == "refill":
+                # the owner of the table records new results into it (in place, same length)
+                st.tables[int(op[1])][...] = np.array(op[2], dtype=float).reshape(st.tables[int(op[1])].shape)
+            elif op[0] in ("clear", "enable") and op_var(op) == 1:
+                if op[0] == "clear":
+                    ovs[1].clear()
+                    ovs[1].fuzzy.terms.append(fl.Activated(ovs[1].terms[0], 0.5, fl.Minimum()))
+                else:
+                    ovs[1].enabled = bool(op[1])
+            elif op[0] == "defuzz":
                 st.queue = [mk_value(op[1], op[2])]
                 ov.defuzzify()
             elif op[0] == "raise":
@@ -173,12 +205,20 @@ def run_impl(setting, ops):
         except Exception as ex:  # noqa: BLE001
             raised = type(ex).__name__
         fuzzy_same = len(fuzzy_before) == len(ov.fuzzy.terms) and all(a is b for a, b in zip(fuzzy_before, ov.fuzzy.terms))
-        obs.append((canon(ov.value), float(ov.previous_value), raised, fuzzy_same))
+        if tables is None:
+            obs.append((canon(ov.value), float(ov.previous_value), raised, fuzzy_same))
+        else:
+            kept = {"tables": [canon(t) for t in st.tables]}
+            if len(ovs) > 1:
+                kept["value2"], kept["previous2"] = canon(ovs[1].value), float(ovs[1].previous_value)
+            obs.append((canon(ov.value), float(ov.previous_value), raised, fuzzy_same, kept))
     return obs
 
 
-def spec(setting, ops):
+def spec(setting, ops, tables=None, setting2=None):
     """the documented cascade, row by row (independent Python oracle)"""
+    if tables is not None:
+        return spec_kept(setting, ops, tables, setting2)
     lp, lr, dv = setting[:3]
     lo, hi = bounds(setting)
     value, prev, enabled = [NAN], NAN, True
@@ -214,6 +254,52 @@ def spec(setting, ops):
                 recent = v
             value = rows
         out.append((list(value), prev, raised))
+    return out
+
+
+def project(ops, tables, var):
+    """the history as ONE variable lives it, in the plain vocabulary (defuzz / raise / clear / enable): a defuzzifier that
+    hands out an array it keeps is, for the variable, a defuzzifier that returned those numbers - the recorded ones, as the
+    owner last wrote them; what happens to the other variable, and the owner rewriting a table, is nothing at all (written
+    as re-stating the enabled flag, so that every operation keeps its place in the sequence)"""
+    tabs = [list(t) if isinstance(t, list) else [t] for t in tables]
+    enabled, out = True, []
+    for op in ops:
+        op = tuple(op)
+        mine = op_var(op) == var
+        if op[0] == "refill":
+            tabs[int(op[1])] = [float(x) for x in op[2]]
+            out.append(("enable", enabled))
+        elif not mine:
+            out.append(("enable", enabled))
+        elif op[0] == "replay":
+            out.append(("defuzz", list(tabs[int(op[1])]), "arr1"))
+        elif op[0] == "clear":
+            out.append(("clear",))
+        elif op[0] == "enable":
+            enabled = bool(op[1])
+            out.append(("enable", enabled))
+        else:
+            out.append(op)
+    return out
+
+
+def spec_kept(setting, ops, tables, setting2):
+    """histories with a defuzzifier that keeps what it hands out: every variable follows the documented cascade on the
+    RECORDED values (`project`), and the tables hold what their owner wrote - defuzzifying reads them"""
+    one = spec(setting, project(ops, tables, 0))
+    two = spec(setting2, project(ops, tables, 1)) if setting2 is not None else None
+    tabs = [list(t) if isinstance(t, list) else [t] for t in tables]
+    out = []
+    for i, op in enumerate(ops):
+        if op[0] == "refill":
+            tabs[int(op[1])] = [float(x) for x in op[2]]
+        kept = {"tables": [list(t) for t in tabs]}
+        raised = one[i][2]
+        if two is not None:
+            kept["value2"], kept["previous2"] = two[i][0], two[i][1]
+            raised = raised if op_var(op) == 0 else two[i][2]
+        out.append((one[i][0], one[i][1], raised, kept))
     return out
 
 
@@ -264,14 +350,19 @@ def key(case):
     rt = sorted({op[2] for op in case["ops"] if op[0] == "defuzz"})
     k = "rtypes=" + ",".join(rt)
     faults = sorted({op[1] for op in case["ops"] if (op[0] == "raise" and len(op) > 1) or op[0] == "real"})
-    return k + (";faults=" + ",".join(faults) if faults else "")
+    k += ";faults=" + ",".join(faults) if faults else ""
+    if case.get("tables") is not None:
+        k += ";kept tables" + (" shared by two variables" if case.get("setting2") is not None else "")
+    return k
 
 
 def oracle(case):
     setting = tuple(case["setting"])
     ops = [tuple(o) for o in case["ops"]]
-    obs = run_impl(setting, ops)
-    exp = spec(setting, ops)
+    tables = case.get("tables")
+    setting2 = tuple(case["setting2"]) if case.get("setting2") is not None else None
+    obs = run_impl(setting, ops, tables, setting2)
+    exp = spec(setting, ops, tables, setting2)
     for i, (o, e) in enumerate(zip(obs, exp)):
         if o[2] != e[2]:
             return False, f"step {i} {ops[i]}: raised {o[2]}, documented behaviour raises {e[2]}"
@@ -281,7 +372,26 @@ def oracle(case):
             return False, f"step {i} {ops[i]}: previous_value {o[1]}, expected {e[1]}"
         if (ops[i][0] == "raise" or e[2] is not None) and not o[3]:
             return False, f"step {i}: fuzzy output changed although defuzzification raised"
+        if tables is not None:
+            ok, d = kept_ok(i, ops[i], o[4], e[3])
+            if not ok:
+                return False, d
     return True, "ok"
+
+
+def kept_ok(i, op, got, want):
+    """the second variable, and the arrays the defuzzifier keeps: "the defuzzified value" is an input of the cascade, the
+    variable's value its output - filling and substituting happen in the variable, the defuzzifier's record stays as it is"""
+    if "value2" in want:
+        if len(got["value2"]) != len(want["value2"]) or not all(same(a, b) for a, b in zip(got["value2"], want["value2"])):
+            return False, f"step {i} {op}: value of the second variable {got['value2']}, documented cascade gives {want['value2']}"
+        if not same(got["previous2"], want["previous2"]):
+            return False, f"step {i} {op}: previous_value of the second variable {got['previous2']}, expected {want['previous2']}"
+    for k, (g, w) in enumerate(zip(got["tables"], want["tables"])):
+        if len(g) != len(w) or not all(same(a, b) for a, b in zip(g, w)):
+            return False, (f"step {i} {op}: the array the defuzzifier keeps (table {k}) holds {g} afterwards, its owner "
+                           f"recorded {w} (defuzzify reads the defuzzified values, it does not own them)")
+    return True, ""
 
 
 def gen_cases(ctx):
@@ -354,6 +464,122 @@ def gen_cases(ctx):
         yield setting, ops, "random-faults"
 
 
+KEPT_TABLES = [[NAN, 0.5, NAN], [NAN], NAN, [2.0, NAN, -1.0, NAN], [0.5, 0.25], [NAN, NAN, 0.25], 2.0, [NAN, 2.0]]
+
+
+def gen_kept_cases(ctx):
+    """"all sequences of defuzzified values ... under every split into successive calls": where the sequence comes from is
+    the defuzzifier's business.  The stub of the families above builds a fresh object for every call; a defuzzifier may as
+    well hand out an array it KEEPS - a replay of recorded results, a look-up table, a cache - the same float64 ndarray (1-D
+    or 0-d) on every call, and one defuzzifier object may serve two output variables with different settings.  Histories:
+    the same table twice, with clear() / another table / a plain call in between, the two variables in turn on one table,
+    the owner re-recording a table in place between calls; all 16 settings, then random histories.  Observed after every
+    operation: value and previous value of BOTH variables against the documented cascade on the recorded values, and the
+    tables themselves, which must hold what their owner wrote (NaN where NaN was)"""
+    rng = ctx.rng
+    sets = list(settings())
+    for si, setting in enumerate(sets):
+        for ti, tab in enumerate(KEPT_TABLES):
+            other = KEPT_TABLES[(ti + 3) % len(KEPT_TABLES)]
+            tables = [tab, other]
+            s2 = sets[(si * 7 + ti * 3 + 5) % len(sets)]
+            fresh = [0.25 if x != x else NAN for x in (tab if isinstance(tab, list) else [tab])]
+            hists = [
+                (None, [("replay", 0, 0), ("replay", 0, 0)]),
+                (None, [("replay", 0, 0), ("clear",), ("replay", 0, 0)]),
+                (None, [("defuzz", [0.25], "arr1"), ("replay", 0, 0), ("replay", 1, 0), ("replay", 0, 0)]),
+                (s2, [("replay", 0, 0), ("replay", 0, 1), ("replay", 0, 0)]),
+                (s2, [("defuzz", [2.0], "float"), ("replay", 0, 1), ("replay", 1, 0), ("replay", 0, 0), ("replay", 1, 1)]),
+                (None, [("replay", 0, 0), ("refill", 0, fresh), ("replay", 0, 0)]),
+            ]
+            for setting2, ops in hists:
+                yield {"setting": list(setting), "tables": tables, "ops": [list(o) for o in ops],
+                       **({"setting2": list(setting2)} if setting2 is not None else {})}
+    pool2 = POOL + [math.inf, -math.inf, 1.0, 0.0]
+    for _ in range(ctx.scale(1200, 12000)):
+        setting = (rng.random() < 0.5, rng.random() < 0.5, rng.choice(DEFAULTS))
+        if rng.random() < 0.2:
+            setting = setting + rng.choice([(0.0, math.inf), (-math.inf, math.inf), (0.25, 0.75), (-2.0, 0.5)])
+        two = rng.random() < 0.5
+        setting2 = (rng.random() < 0.5, rng.random() < 0.5, rng.choice(DEFAULTS)) if two else None
+        tables = []
+        for _ in range(rng.randint(1, 3)):
+            k = rng.randint(0, 4)
+            row = [rng.choice(pool2 + [NAN, NAN]) for _ in range(max(1, k))]
+            tables.append(row[0] if k == 0 else row)
+        ops = []
+        for _ in range(rng.randint(2, 7)):
+            r = rng.random()
+            v = rng.randint(0, 1) if two else 0
+            if r < 0.6:
+                ops.append(["replay", rng.randrange(len(tables)), v])
+            elif r < 0.7:
+                t = rng.randrange(len(tables))
+                size = len(tables[t]) if isinstance(tables[t], list) else 1
+                ops.append(["refill", t, [rng.choice(pool2 + [NAN]) for _ in range(size)]])
+            elif r < 0.8:
+                ops.append(["defuzz", [rng.choice(pool2) for _ in range(rng.randint(1, 3))], rng.choice(["arr1", "arr0", "np64", "float"])])
+            elif r < 0.85:
+                ops.append(["raise"])
+            elif r < 0.93:
+                ops.append(["clear", v] if v else ["clear"])
+            else:
+                ops.append(["enable", rng.random() < 0.5, v] if v else ["enable", rng.random() < 0.5])
+        yield {"setting": list(setting), "tables": tables, "ops": ops, **({"setting2": list(setting2)} if two else {})}
+
+
+def kept_against_model(ctx, mism, viol_keys):
+    """the histories of `gen_kept_cases`: each variable's own view of the history (`project`) through the Lean model, the
+    implementation driven through the whole history, plus the property oracle on every case"""
+    st = ctx.stats
+    cases = list(gen_kept_cases(ctx))
+    lines, owner = [], []
+    for ci, case in enumerate(cases):
+        for var, setting in enumerate([case["setting"], case.get("setting2")]):
+            if setting is not None:
+                lines.append(to_line(tuple(setting), project(case["ops"], case["tables"], var)))
+                owner.append((ci, var))
+    outs = ctx.driver.eval(lines)
+    bad = {}
+    observed = {}
+    for (ci, var), line in zip(owner, outs):
+        case = cases[ci]
+        if ci not in observed:
+            observed[ci] = run_impl(tuple(case["setting"]), [tuple(o) for o in case["ops"]], case["tables"],
+                                    tuple(case["setting2"]) if case.get("setting2") is not None else None)
+        if line in ("bad-op", "bad-parse"):
+            bad.setdefault(ci, f"model rejected the operation sequence of variable {var}")
+            continue
+        for i, (o, m) in enumerate(zip(observed[ci], C.parse_sx(line))):
+            mv, mp = [C.parse_x(x) for x in m[0]], C.parse_x(m[1])
+            gv, gp = (o[0], o[1]) if var == 0 else (o[4]["value2"], o[4]["previous2"])
+            if len(gv) != len(mv) or not all(C.close(a, b, atol=0, rtol=0) for a, b in zip(gv, mv)) \
+                    or not C.close(gp, mp, atol=0, rtol=0):
+                bad.setdefault(ci, f"step {i} {case['ops'][i]}: variable {var} holds {gv} (previous {gp}), model {m}")
+                break
+    for ci, case in enumerate(cases):
+        st.count("kept tables" + (", two variables" if case.get("setting2") is not None else ""))
+        obs = observed[ci]
+        filled = any(op[0] == "replay" and any(x != x for x in o[4]["tables"][int(op[1])]) and
+                     not all(x != x for x in (o[0] if op_var(op) == 0 else o[4]["value2"]))
+                     for op, o in zip(case["ops"], obs))
+        st.case((json_key(case)), filled, sample=None)
+        st.validated += 1
+        ok, detail = oracle(case)
+        st.count("oracle")
+        k = "k:" + key(case)
+        if ci in bad and k not in viol_keys:
+            viol_keys.add(k)
+            mism.append({"case": case, "impl": [list(o[:3]) for o in obs], "what": bad[ci]})
+        elif not ok and k not in viol_keys:
+            viol_keys.add(k)
+            mism.append({"case": case, "violation": True, "detail": detail, "what": detail})
+
+
+def json_key(case):
+    return repr((case["setting"], case.get("setting2"), case["tables"], case["ops"]))
+
+
 def correspond(ctx):
     st = ctx.stats
     mism = []
@@ -415,6 +641,8 @@ def correspond(ctx):
                 continue
             viol_keys.add(k)
             mism.append({"case": case, "violation": True, "detail": detail, "what": detail})
+    # drawn after every earlier stream: defuzzifiers that keep the arrays they hand out, alone or shared by two variables
+    kept_against_model(ctx, mism, viol_keys)
     ctx.notes["exhaustive"] = True
     ctx.notes["exhaustive_space"] = f"all value sequences of length <= {ctx.scale(4, 5)} over {len(POOL)} values x all splits x 16 settings"
     return mism
@@ -423,6 +651,10 @@ def correspond(ctx):
 def search(ctx):
     for setting, ops, _ in gen_cases(ctx):
         case = {"setting": list(setting), "ops": [list(o) for o in ops]}
+        ok, d = oracle(case)
+        if not ok:
+            return [(case, d)]
+    for case in gen_kept_cases(ctx):
         ok, d = oracle(case)
         if not ok:
             return [(case, d)]
